@@ -7,10 +7,12 @@ from fpv.common import qstr, frac
 def gen_cfg(rng, small=False):
     nodes, edges = gen.dag(rng, max_nodes=5 if small else 7)
     wint = rng.random() < 0.6
+    cover = rng.random() < 0.65          # otherwise some edges carry flow 0 (still conserving)
     if wint:
-        f, paths, ws = gen.flow_from_paths(rng, nodes, edges, wtype=int)
+        f, paths, ws = gen.flow_from_paths(rng, nodes, edges, wtype=int, cover=cover, npaths=None if cover else rng.randint(1, 3))
     else:
-        f, paths, ws = gen.flow_from_paths(rng, nodes, edges, weights=(0.5, 1.0, 1.5, 2.25, 4.0), wtype=float)
+        f, paths, ws = gen.flow_from_paths(rng, nodes, edges, weights=(0.5, 1.0, 1.5, 2.25, 4.0), wtype=float, cover=cover,
+                                           npaths=None if cover else rng.randint(1, 3))
     cfg = {"class": "kfd", "nodes": nodes, "edges": [list(e) for e in edges],
            "flow": [[u, v, qstr(f[(u, v)])] for (u, v) in edges],
            "weight_type": "int" if wint else "float",
@@ -82,3 +84,13 @@ def to_request(cfg):
          "coverage_length": cfg["coverage_length"], "lengths": cfg["lengths"],
          "given_weights": cfg["given_weights"], "original_k": cfg["k"]}
     return r
+
+
+def features(cfg):
+    f = []
+    if any(frac(x[2]) == 0 for x in cfg["flow"]): f.append("zero-flow edge")
+    if cfg["ignore"]: f.append("ignore")
+    if cfg["constraints"]: f.append("constraints")
+    if cfg["given_weights"] is not None: f.append("given weights")
+    f.append(cfg["weight_type"])
+    return f
